@@ -172,11 +172,14 @@ func runCase(env *ev.Env, c Case) (o ev.Outcome) {
 			}()
 			if crashed {
 				crashes++
-				inject.KillConnections()
-				inst.Close()
+				inst.Kill()
 				inst, err = stacks.Open(dir, layout, opts)
 				if err != nil {
 					inst = nil
+					if strings.Contains(err.Error(), "database is locked") {
+						o.Discard = true // artefact of simulating the kill in-process
+						return
+					}
 					o.Failf("restart after crash at %s failed: %v", target, err)
 					return
 				}
